@@ -334,9 +334,13 @@ Fixpoint replay_calls (cutoff mix C : Q) (css : list (list nat)) (calls : list (
    `path`), each with its simulation limit, the noise sample the Dirichlet
    stand-in would hand out, the recorded descent paths and (C09) the recorded
    solver calls of each descent *)
+(* a policy query made after a phase (C09): path of the queried node from the
+   FIRST root, the C of the query, the solver call it made (None = no call) *)
+Definition oquery := (list Z * Q * option ocall)%type.
+
 Record phase := mkPhase {
   ph_path : list Z; ph_limit : Z; ph_noise : option (list Q);
-  ph_css : list (list Z); ph_calls : list (list ocall) }.
+  ph_css : list (list Z); ph_calls : list (list ocall); ph_queries : list oquery }.
 
 Definition natl (l : list Z) : list nat := map Z.to_nat l.
 
@@ -464,19 +468,74 @@ Definition show_search (cutoff mix : Q) (p0 : position) (phs : list phase) (evs 
   | None => None
   end.
 
-(* C09: the same replay, comparing the solver inputs of every descent *)
-Fixpoint run_phases_calls (cutoff mix C : Q) (phs : list phase) (n : node) (evs : list eval)
-  : option (bool * node * list eval) :=
+(* C09: the same replay, comparing the solver inputs of every descent.  The
+   whole tree is kept: analyze_tree on a child updates that subtree in place
+   and leaves the statistics of the nodes above it alone, exactly as the code
+   does, so that the policy of the first root can be asked for again after the
+   search has continued below one of its children. *)
+Fixpoint graft (n : node) (path : list Z) (t : node) : node :=
+  match path with
+  | [] => t
+  | c :: r =>
+    match n with
+    | Node p m v0 value sims raw probs kids =>
+      match kids with
+      | Some ks =>
+        match nth_error ks (Z.to_nat c) with
+        | Some k => Node p m v0 value sims raw probs (Some (upd_nth ks (Z.to_nat c) (graft k r t)))
+        | None => n
+        end
+      | None => n
+      end
+    end
+  end.
+
+(* a query must call the solver exactly when the node has children and has
+   been visited, with the model's policy_inputs for the C of the query and the
+   node's CURRENT statistics *)
+Definition query_agrees (whole : node) (q : oquery) : bool :=
+  let '(path, C, oc) := q in
+  match subtree whole path with
+  | None => false
+  | Some t =>
+    match n_sims t, policy_inputs t C, oc with
+    | S _, Some i, Some c => call_agrees C i c
+    | S _, Some _, None => false
+    | _, _, None => true
+    | _, _, Some _ => false
+    end
+  end.
+
+(* result: all descents and queries agree; the queries that do not (phase
+   index, path, C, the model's q / lambda^2 / N / K at that moment); the
+   whole tree; the path of the current tree; the evaluator answers left *)
+Definition qfail := (Z * list Z * Q * option (list Q * Q * nat * nat))%type.
+
+Fixpoint run_phases_calls (cutoff mix C : Q) (phs : list phase) (j : Z) (whole : node) (cur : list Z)
+         (evs : list eval) : option (bool * list qfail * node * list Z * list eval) :=
   match phs with
-  | [] => Some (true, n, evs)
+  | [] => Some (true, [], whole, cur, evs)
   | ph :: r =>
-    match subtree n (ph_path ph) with
+    let cur' := cur ++ ph_path ph in
+    match subtree whole cur' with
     | None => None
     | Some t =>
       let '(ok, t', evs') :=
           replay_calls cutoff mix C (map natl (ph_css ph)) (ph_calls ph) t (ph_noise ph) evs in
-      match run_phases_calls cutoff mix C r t' evs' with
-      | Some (ok', n', evs'') => Some (ok && ok', n', evs'')
+      let whole' := graft whole cur' t' in
+      let bad := flat_map (fun q : oquery =>
+                             if query_agrees whole' q then []
+                             else [(j, fst (fst q), Qred (snd (fst q)),
+                                    match subtree whole' (fst (fst q)) with
+                                    | Some t0 => match policy_inputs t0 (snd (fst q)) with
+                                                 | Some i => Some (map Qred (pi_q i), Qred (pi_lambda_sq i), pi_N i, pi_K i)
+                                                 | None => None
+                                                 end
+                                    | None => None
+                                    end)]) (ph_queries ph) in
+      match run_phases_calls cutoff mix C r (j + 1)%Z whole' cur' evs' with
+      | Some (ok', bad', w, c, e) =>
+        Some (ok && match bad with [] => true | _ => false end && ok', bad ++ bad', w, c, e)
       | None => None
       end
     end
@@ -486,28 +545,34 @@ Fixpoint run_phases_calls (cutoff mix C : Q) (phs : list phase) (n : node) (evs 
    sampled index and the move it returned *)
 Definition check_calls (cutoff mix C : Q) (p0 : position) (phs : list phase) (evs : list eval)
            (final : option (ocall * Z * mv)) : bool :=
-  match run_phases_calls cutoff mix C phs (root p0) evs with
-  | Some (ok, n, _) =>
-    ok &&
-    match final with
-    | None => true
-    | Some (oc, choice, m) =>
-      match policy_inputs n C with
-      | Some i => call_agrees C i oc
-      | None => false
-      end &&
-      opt_eqb mv_eqb (select_root_move n (Z.to_nat choice)) (Some m) &&
-      match move (n_pos n) m with Some _ => true | None => false end
+  match run_phases_calls cutoff mix C phs 0%Z (root p0) [] evs with
+  | Some (ok, _, whole, cur, _) =>
+    match subtree whole cur with
+    | None => false
+    | Some n =>
+      ok &&
+      match final with
+      | None => true
+      | Some (oc, choice, m) =>
+        match policy_inputs n C with
+        | Some i => call_agrees C i oc
+        | None => false
+        end &&
+        opt_eqb mv_eqb (select_root_move n (Z.to_nat choice)) (Some m) &&
+        match move (n_pos n) m with Some _ => true | None => false end
+      end
     end
   | None => false
   end.
 
+(* model view for a replay: everything agrees?; the first queries that do not;
+   visits / value / v_zero of the current tree *)
 Definition show_calls (cutoff mix C : Q) (p0 : position) (phs : list phase) (evs : list eval) :=
-  match run_phases_calls cutoff mix C phs (root p0) evs with
-  | Some (ok, n, _) =>
-    Some (ok, node_view n,
-          match policy_inputs n C with
-          | Some i => Some (map Qred (pi_q i), Qred (pi_lambda_sq i), pi_N i, pi_K i)
+  match run_phases_calls cutoff mix C phs 0%Z (root p0) [] evs with
+  | Some (ok, bad, whole, cur, _) =>
+    Some (ok, firstn 3 bad,
+          match subtree whole cur with
+          | Some n => Some (n_sims n, Qred (n_value n), Qred (n_v0 n))
           | None => None
           end)
   | None => None
